@@ -14,6 +14,8 @@ Shapes (tags) tracked for every expression of the view:
     K   one key (abstract dependency / base module)   KE one end of a key   KS iterable of keys
     IT  D.items()   I one item    DS iterable of D    GI G.items()
     EN / KN  the module name (`.identifier`) of an E / KE
+    GK  layer -> list of keys      CNT  layer -> summed len() of the realisation lists (Counter)      KCNT  layer -> number of keys
+    CNTV / KCNTV  one value of those
 
 Every tag carries its source ('E' explicit, 'O' other); pair-carrying tags carry `clean`: True once the pairs were added under
 a guard that implies "the layers of the two ends differ" (the same-layer filter), False when not, None when a layer test guards
@@ -60,6 +62,8 @@ def elem(tags: set) -> set:
             out.add(("K", t[1]))
         elif k == "KS":
             out.add(("K", t[1]))
+        elif k == "KSS":
+            out.add(("KS", t[1]))
         elif k == "LL":
             out.add(("L", t[1], t[2], False, t[3]))
         elif k == "L":
@@ -88,6 +92,8 @@ def values_of(tags: set) -> set:
             out.add(("LL", t[1], t[2], t[3]))
         elif t[0] == "G":
             out.add(("DS", t[1], t[2]))
+        elif t[0] == "GK":
+            out.add(("KSS", t[1]))
     return out
 
 
@@ -109,6 +115,12 @@ def lookup_in(tags: set) -> set:
             out.add(("L", t[1], t[2], False, t[3]))
         elif t[0] == "LL":
             out.add(("L", t[1], t[2], False, t[3]))
+        elif t[0] == "GK":
+            out.add(("KS", t[1]))
+        elif t[0] == "CNT":
+            out.add(("CNTV", t[1], t[2]))
+        elif t[0] == "KCNT":
+            out.add(("KCNTV", t[1]))
     return out
 
 
@@ -224,6 +236,21 @@ class Shapes:
         elif isinstance(s, ast.AnnAssign):
             if s.value is not None:
                 self._bind(s.target, self.tags(s.value))
+        elif isinstance(s, ast.AugAssign) and isinstance(s.target, ast.Subscript) and isinstance(s.op, ast.Add):
+            # counter[layer] += len(realisations) / += 1 : per-layer accumulators
+            base = s.target.value
+            name = base.id if isinstance(base, ast.Name) else norm(base) if isinstance(base, ast.Attribute) else None
+            v = s.value
+            if name is not None:
+                if isinstance(v, ast.Call) and isinstance(v.func, ast.Name) and v.func.id == "len" and v.args:
+                    for t in self.tags(v.args[0]):
+                        if t[0] == "L":
+                            self._join(name, {("CNT", t[1], t[2])})
+                elif isinstance(v, ast.Constant) and isinstance(v.value, int) and self._keyed_by_data(s):
+                    self._join(name, {("KCNT", self._keyed_by_data(s))})
+                else:
+                    vt = self._merge(self.tags(v), s, base)
+                    self._bind_container(s.target, vt)
         elif isinstance(s, ast.AugAssign):
             v = self._merge(self.tags(s.value), s, s.target)
             self._bind(s.target, v)
@@ -353,6 +380,9 @@ class Shapes:
     def _is_lookup(self, e: ast.expr) -> ast.expr | None:
         """The module-name argument when `e` is a layer lookup `<mapping>.get_layer_for_module_name(<name>)`."""
         e = single_value(self.view, e)
+        m = self._memo_lookup(e) if isinstance(e, (ast.Subscript, ast.Call)) and not getattr(self, "_in_memo", False) else None
+        if m is not None:
+            return m
         if isinstance(e, ast.Call) and len(e.args) + len(e.keywords) == 1:
             fn = e.func
             if isinstance(fn, ast.Name):
@@ -363,6 +393,46 @@ class Shapes:
             if self._is_layer_helper(e):
                 return e.args[0] if e.args else e.keywords[0].value
         return None
+
+    def _keyed_by_data(self, s: ast.stmt) -> str | None:
+        """Source ('E' / 'O') when the statement runs once per key of a dependency dictionary."""
+        child: ast.AST = s
+        for a in ancestors(s):
+            if a is self.view.node:
+                break
+            if isinstance(a, (ast.For, ast.AsyncFor)) and child is not a.iter:
+                for t in self.tags(a.iter):
+                    if t[0] in ("D", "IT", "KS"):
+                        return t[1]
+            child = a
+        return None
+
+    def _memo_lookup(self, e: ast.expr) -> ast.expr | None:
+        """`table[x]` / `table.get(x)` where `table = {m: <layer of m> for ...}` is a memo of the layer lookup: the key x."""
+        key = None
+        tbl = None
+        if isinstance(e, ast.Subscript) and not isinstance(e.slice, ast.Slice) and isinstance(e.value, ast.Name):
+            tbl, key = e.value, e.slice
+        elif isinstance(e, ast.Call) and isinstance(e.func, ast.Attribute) and e.func.attr == "get" and isinstance(e.func.value, ast.Name) and len(e.args) == 1:
+            tbl, key = e.func.value, e.args[0]
+        if tbl is None:
+            return None
+        from .c05_views import productions
+
+        prods = productions(self.view, tbl)
+        if not prods:
+            return None
+        for p in prods:
+            if p.elt is None or p.key is None:
+                return None
+            a = self._is_lookup(p.elt)
+            if a is None:
+                return None
+            a = single_value(self.view, a)
+            base = a.value if isinstance(a, ast.Attribute) and a.attr in ("identifier", "name") else a
+            if norm(single_value(self.view, base)) != norm(single_value(self.view, p.key)):
+                return None
+        return key
 
     def _is_layer_helper(self, call: ast.Call) -> bool:
         if self.depth > 3:
@@ -437,6 +507,13 @@ class Shapes:
             r = self.same_layer_atom(e)
             if r is not None:
                 return r
+            if isinstance(e, ast.Compare) and len(e.ops) == 1 and isinstance(e.left, ast.Name) and isinstance(e.left.ctx, ast.Load) and isinstance(e.comparators[0], ast.Constant):
+                # n = len(xs) ... if n != 0:   ->   if len(xs) != 0:
+                asg = assignments_of(self.view, e.left.id)
+                if asg and len(asg) == 1 and e.left.id not in self.view.param_names and isinstance(asg[0][1], ast.Call) and isinstance(asg[0][1].func, ast.Name) and asg[0][1].func.id in ("len", "sum"):
+                    new = ast.Compare(left=asg[0][1], ops=e.ops, comparators=e.comparators)
+                    j = extra(new) if extra is not None else None
+                    return j if j is not None else to_formula(new, subst)
             if isinstance(e, ast.Call) and not (isinstance(e.func, ast.Name) and e.func.id in ("any", "all", "bool", "len", "isinstance", "sum", "set", "list", "tuple", "sorted")):
                 r = self.pred_formula(e)
                 if r is not None:
@@ -835,8 +912,28 @@ class Shapes:
                     else:
                         out.add(t)
                 return out
-            if n in ("map",) and len(args) >= 2:
-                return set()
+            if n in ("map",) and len(args) == 2:
+                # map(fn, xs): what fn returns for an element of xs, collected
+                et = elem(args[1])
+                fn = e.args[0]
+                got = None
+                if isinstance(fn, ast.Lambda):
+                    if fn.args.args:
+                        self._bind(ast.Name(id=fn.args.args[0].arg, ctx=ast.Store()), et)
+                    got = self.tags(fn.body)
+                else:
+                    callee = self._func_of_ref(fn)
+                    if callee is not None and (self.allow is None or self.allow(self.view, callee)):
+                        got = self._summary_of(callee, [et], {})
+                if got is None:
+                    got = {t for t in et if t[0] in ("P", "K")}
+                return self._collect(got, e, None, None)
+            if n in ("product",) and args:
+                out = set()
+                for t in args[0]:
+                    if t[0] in ("KS", "D"):
+                        out.add(("KS", t[1]))
+                return out
             if n in ("zip", "enumerate"):
                 return set()
             if n == "super":
@@ -895,7 +992,7 @@ class Shapes:
         for t in tags:
             if t[0] == "LL":
                 out.add(("L", t[1], t[2], True, t[3]))
-            elif t[0] == "D":
+            elif t[0] in ("D", "DS", "KSS"):
                 out.add(("KS", t[1]))
             else:
                 out.add(t)
@@ -909,6 +1006,8 @@ class Shapes:
             for t in tags:
                 if t[0] == "L":
                     add.add(("D", t[1], t[2], t[4]))
+                elif t[0] == "KS":
+                    add.add(("GK", t[1]))
             self._bind_container(inner, add)
             return
         if isinstance(c, ast.Subscript):
@@ -916,6 +1015,8 @@ class Shapes:
             for t in tags:
                 if t[0] == "L":
                     add.add(("D", t[1], t[2], t[4]))
+                elif t[0] == "KS":
+                    add.add(("GK", t[1]))
             self._bind_container(c.value, add)
             return
         if isinstance(c, ast.Name):
@@ -928,6 +1029,11 @@ class Shapes:
             return None
         callee = self._resolve_callee(call)
         if callee is None:
+            return None
+        return self._summary_of(callee, args, kw)
+
+    def _summary_of(self, callee: FuncInfo, args: list[set], kw: dict) -> set | None:
+        if self.depth > 3:
             return None
         params = callee.param_names
         if callee.cls is not None and callee.outer is None and not callee.is_staticmethod and params:
@@ -1014,7 +1120,21 @@ class Shapes:
                                 grp = bool(t[4])
                             return Judgement(x, kind, t[1], t[2], grp, self._jformula(kind, t[1], t[2]))
                 return None
+            if isinstance(x, ast.Compare) and len(x.ops) == 1 and isinstance(x.comparators[0], ast.Constant) and x.comparators[0].value in (0, 1):
+                cv = [t for t in self.tags(x.left) if t[0] == "CNTV"]
+                if cv:
+                    # counter[layer] == 0 : the summed length of the layer's realisation lists
+                    op, c0 = x.ops[0], x.comparators[0].value
+                    positive = (isinstance(op, (ast.Gt, ast.NotEq)) and c0 == 0) or (isinstance(op, ast.GtE) and c0 == 1)
+                    negative = (isinstance(op, (ast.Eq, ast.LtE)) and c0 == 0) or (isinstance(op, ast.Lt) and c0 == 1)
+                    if positive or negative:
+                        kind = "any" if positive else "none"
+                        return Judgement(x, kind, cv[0][1], cv[0][2], True, self._jformula(kind, cv[0][1], cv[0][2]))
+                return None
             ts = self.tags(x)
+            cv = [t for t in ts if t[0] == "CNTV"]
+            if cv:
+                return Judgement(x, "any", cv[0][1], cv[0][2], True, self._jformula("any", cv[0][1], cv[0][2]))
             ls = [t for t in ts if t[0] == "L"]
             if ls:
                 t = ls[0]
@@ -1043,6 +1163,8 @@ class Shapes:
             elif isinstance(n, ast.Compare) and len(n.ops) == 1 and isinstance(n.ops[0], (ast.Eq, ast.NotEq)) and isinstance(n.comparators[0], (ast.List, ast.Set, ast.Tuple, ast.Call)) and _is_empty_literal(n.comparators[0]):
                 cands.append(n.left)
             elif isinstance(n, ast.Compare) and len(n.ops) == 1 and isinstance(n.left, ast.Call) and isinstance(n.left.func, ast.Name) and n.left.func.id == "sum":
+                cands.append(n)
+            elif isinstance(n, ast.Compare) and len(n.ops) == 1 and isinstance(n.comparators[0], ast.Constant) and any(t[0] == "CNTV" for t in self.tags(n.left)):
                 cands.append(n)
             elif isinstance(n, (ast.GeneratorExp, ast.ListComp, ast.SetComp)) and isinstance(parent(n), ast.Call) and isinstance(parent(n).func, ast.Name) and parent(n).func.id in ("any", "all"):
                 cands.append(n.elt)
